@@ -57,11 +57,14 @@ class C16(Harness):
         if k in ("padding", "truncation"):
             lens = [choice("len%d" % i, 2, 3) for i in range(ni)]
         else:
-            Ln = choice("L", 4 if k == "features" else 2, 4)
+            Ln = choice("L", 4 if k == "features" else 2, 5 if k == "paa" else 4)
             lens = [Ln] * ni
         x = [[fresh_reals(ctx, "x%d_%d_" % (i, j), lens[i]) for j in range(nc)] for i in range(ni)]
         perm = choice("perm", 0, len(list(itertools.permutations(range(ni)))) - 1)
-        return {"x": x, "perm": list(list(itertools.permutations(range(ni)))[perm]), "single": choice("single", 0, ni - 1), "m": choice("m", 1, 2), "w": choice("w", 1, 3)}
+        m = choice("m", 1, 3 if k == "paa" else 2)
+        if k == "paa" and m > min(lens):
+            ctx.assume(False)  # more frames than time points is (rightly) rejected
+        return {"x": x, "perm": list(list(itertools.permutations(range(ni)))[perm]), "single": choice("single", 0, ni - 1), "m": m, "w": choice("w", 1, 3)}
 
     def _build(self, W, k, inp, sym):
         import numpy as np
@@ -142,6 +145,9 @@ class C16(Harness):
             out["perm"] = rows_of(apply(Xp))
             Xs = X.iloc[[inp["single"]]].reset_index(drop=True)
             out["single"] = rows_of(apply(Xs))
+            # the same selections with their original instance labels kept (what X.iloc[...] hands over)
+            out["perm_keep"] = rows_of(apply(X.iloc[inp["perm"]]))
+            out["single_keep"] = rows_of(apply(X.iloc[[inp["single"]]]))
             if k not in ("padding", "truncation", "column-ensemble"):
                 a = np.empty((ni, X.shape[1], len(inp["x"][0][0])), dtype=object if sym else float)
                 for i in range(ni):
@@ -175,6 +181,13 @@ class C16(Harness):
         for r, src in enumerate(inp["perm"]):
             self._same(P, "permutation-equivariant", out["perm"][r], full[src], d)
         self._same(P, "single-instance-equals-batch-row", out["single"][0], full[inp["single"]], d)
+        dk = dict(d, instance_labels="kept")
+        P.check("row-count-and-order", len(out["perm_keep"]) == ni and len(out["single_keep"]) == 1, dk)
+        for r, src in enumerate(inp["perm"]):
+            if r < len(out["perm_keep"]):
+                self._same(P, "permutation-equivariant", out["perm_keep"][r], full[src], dk)
+        if out["single_keep"]:
+            self._same(P, "single-instance-equals-batch-row", out["single_keep"][0], full[inp["single"]], dk)
         if "array" in out:
             self._same(P, "container-independent", out["array"], full, d)
             self._same(P, "container-independent", out["fit_on_array"], full, dict(d, at="fit"))
